@@ -380,6 +380,12 @@ func (f Index) Iterate(fn IndexIterFunc, options *IterateOptions) (err error) {
 					return it.Error()
 				}
 			}
+		} else if !ok {
+			// no key at or after StartFrom: the closest key before it is the last one
+			ok = it.Last()
+		} else if !bytes.Equal(it.Key(), startKey) {
+			// StartFrom is not stored: step back to the closest key before it
+			ok = it.Prev()
 		}
 	}
 
